@@ -128,7 +128,7 @@ def lake_unlock():
 def lake_build(targets, timeout=3000):
     lake_lock()
     try:
-        rc, out = run_cmd(['lake', 'build'] + list(targets), cwd=LEAN, timeout=timeout)
+        rc, out = run_cmd(["lake", "build"] + list(targets), cwd=LEAN, timeout=timeout)
     finally:
         lake_unlock()
     return rc, out
